@@ -35,7 +35,11 @@ def run_worlds(chk, replay, machine, tracemod, replay_cmd, renderers, plans, sam
                       extra=["-continue"],
                       name="%s %s base %d%s" % (machine, dims, base, (" sample %d" % sim) if sim else ""))
         mb = res.printed("MODELBAD")
-        if res.violated and not mb:
+        if "StaticOK" in res.violated:
+            # the tables of the tree are not in the shape the model expects (e.g. a mask bit for an edge
+            # that no triangle uses): drift, the verdict still comes from the real outputs below
+            chk.cov["table_static_check_failed"] = True
+        if [v for v in res.violated if v != "StaticOK"] and not mb:
             raise vlib.Inconclusive("%s model failed without a MODELBAD world: %s\n%s" % (machine, res.violated, res.out[-2000:]))
         vec = [dict(dims=list(dims), base=base, code=int(raw.split(",")[0])) for raw in res.printed("VEC")]
         if sim:
